@@ -34,6 +34,7 @@ def declare_rules(rep):
     rep.rule('S4', 'submitted callable is calc_file_signature with (kspec, file)')
     rep.rule('S5', 'per path: an executor created here is among the open with-contexts at the submit site (shut down), a caller-supplied one never is; unknown concurrency raises')
     rep.rule('S6', 'every return hands the list filled on that path (sequential or concurrent), unmodified, to SignatureList(..., kspec); no other return')
+    rep.rule('S7', 'a failing file fails the call: no context manager of the package swallows the exception raised inside its with block (__exit__ returns nothing / a false constant; @contextmanager generators do not catch around the yield without re-raising)')
     rep.trusted += ['concurrent.futures: Future.result() re-raises the worker exception; as_completed yields each given future exactly once',
                     'iter_progress / ProgressIterator yield the wrapped items unchanged and in order (checked under C08-A7)']
 
@@ -50,7 +51,62 @@ def unfold(fn, e, at):
     return e
 
 
+def _falsy_returns(m, fi, depth=0):
+    """(True, '') when every return of the function yields None / False / nothing; else (False, reason) or (None, reason) for unknown."""
+    verdict, why = True, ''
+    for s in stmts_in(fi.node.body):
+        if not isinstance(s, ast.Return) or s.value is None:
+            continue
+        v = s.value
+        if isinstance(v, ast.Constant):
+            if v.value:
+                return False, f'return {u(v)}'
+            continue
+        if isinstance(v, ast.Call) and depth < 2:
+            r = m.resolve_call(fi, v)
+            callee_fi = m.functions.get(r) if r else None
+            if callee_fi is not None:
+                ok, w = _falsy_returns(m, callee_fi, depth + 1)
+                if ok is True:
+                    continue
+                return ok, f'return {u(v)} -> {callee_fi.qualname}: {w}'
+        if isinstance(v, ast.Name):
+            ds = [a for a in stmts_in(fi.node.body) if isinstance(a, ast.Assign) and len(a.targets) == 1 and u(a.targets[0]) == v.id]
+            if len(ds) == 1:
+                v = ds[0].value
+        if isinstance(v, (ast.Compare, ast.BoolOp)) or (isinstance(v, ast.UnaryOp) and isinstance(v.op, ast.Not)) or (isinstance(v, ast.Constant) and v.value):
+            return False, f'return {u(s.value)} (= {u(v)}): a computed truth value'
+        verdict, why = None, f'return {u(v)}'
+    return verdict, why
+
+
+def check_no_swallow(ctx):
+    rep, m = ctx.rep, ctx.model
+    n = 0
+    for q, fi in sorted(m.functions.items()):
+        if fi.module.kind != 'py':
+            continue
+        if fi.name == '__exit__' and fi.cls is not None:
+            ok, why = _falsy_returns(m, fi)
+            n += 1
+            rep.require(ok is not None, f'{q}: cannot tell whether the value returned by __exit__ is false ({why})')
+            rep.add('S7', fi.site(), f'{fi.cls.node.name}.__exit__ does not suppress an exception raised inside the with block', ok, expected='no return value / None / False', found=why or 'no truthy return', stmt=f'{fi.cls.node.name}.__exit__')
+        elif any(u(d) in ('contextmanager', 'contextlib.contextmanager') for d in fi.node.decorator_list):
+            n += 1
+            bad = []
+            for t in [x for x in ast.walk(fi.node) if isinstance(x, ast.Try)]:
+                if not any(isinstance(y, (ast.Yield, ast.YieldFrom)) for b in t.body for y in ast.walk(b)):
+                    continue
+                for h in t.handlers:
+                    if not any(isinstance(y, ast.Raise) for b in h.body for y in ast.walk(b)):
+                        bad.append(f'except {u(h.type) if h.type else ""}: without re-raise around the yield')
+            rep.add('S7', fi.site(), f'{fi.name} (@contextmanager) does not swallow an exception raised inside the with block', not bad, expected='handlers around the yield re-raise', found=bad or 'no swallowing handler',
+                    stmt=f'{fi.name} contextmanager')
+    rep.floor('S7', 'context managers of the package', n, 4)
+
+
 def core(ctx):
+    check_no_swallow(ctx)
     rep, m = ctx.rep, ctx.model
     fi = m.func(FN)
     rep.functions.add(fi.qualname)
@@ -361,6 +417,12 @@ _BODY_OLD = (_SEQ_OLD + "\n\telse:\n\t\tsigs = [None] * len(files)\n" + _SUBMIT_
 _BODY_GUARD = (_SEQ_OLD + "\n\t\treturn SignatureList(%s, kspec)\n\n\tsigs = [None] * len(files)\n" + _SUBMIT_OLD.replace("\n\t\t", "\n\t").replace("\t\tfuture_to_index = dict()", "\tfuture_to_index = dict()")
                + "\n\t\tfor future in as_completed(future_to_index):\n\t\t\ti = future_to_index[future]\n\t\t\tsigs[i] = future.result()\n\t\t\tmeter.increment()\n\n\tassert all(sig is not None for sig in sigs)\n")
 VARIANTS = [
+    V('ClosingIterator.__exit__ returns True (exceptions of a failing file swallowed)', 'B', 'src/gambit/util/io.py', "\tdef __exit__(self, *args):\n\t\tself.close()\n", "\tdef __exit__(self, *args):\n\t\tself.close()\n\t\treturn True\n", 'S7'),
+    V('close() reports whether the stream was open and __exit__ returns it (seeded C13c)', 'B', 'src/gambit/util/io.py', "\t\tself.fobj.close()\n\n\t@property\n\tdef closed(self) -> bool:",
+      "\t\twas_open = not self.fobj.closed\n\t\tself.fobj.close()\n\t\treturn was_open\n\n\t@property\n\tdef closed(self) -> bool:", 'S7',
+      also=(('src/gambit/util/io.py', "\tdef __exit__(self, *args):\n\t\tself.close()\n", "\tdef __exit__(self, *args):\n\t\treturn self.close()\n"),)),
+    V('E: __exit__ returns the None of close()', 'E', 'src/gambit/util/io.py', "\tdef __exit__(self, *args):\n\t\tself.close()\n", "\tdef __exit__(self, *args):\n\t\treturn self.close()\n"),
+    V('E: __exit__ returns False explicitly', 'E', 'src/gambit/util/io.py', "\tdef __exit__(self, *args):\n\t\tself.close()\n", "\tdef __exit__(self, *args):\n\t\tself.close()\n\t\treturn False\n"),
     V('collect in completion order', 'B', _C, "\t\t\t\ti = future_to_index[future]\n\t\t\t\tsigs[i] = future.result()\n", "\t\t\t\tsigs.append(future.result())\n", 'S1',
       also=[(_C, "\t\tsigs = [None] * len(files)\n", "\t\tsigs = []\n")]),
     V('index from a different counter', 'B', _C, "\t\t\t\tfuture_to_index[future] = i\n", "\t\t\t\tfuture_to_index[future] = len(files) - 1 - i\n", 'S1'),
